@@ -154,3 +154,37 @@ Definition run_pb (clk : positive) (objs : list Z) (l : list (Z * pbev)) : jv :=
        jbool (forallb (fun o => const_blocks 0 None (of_obj o l)) objs);
        (* the same calls with every block marker removed *)
        JL (map (jv_outcome jpbres) (pbm_run clk [] (filter (fun x => match snd x with BEnter | BExit => false | _ => true end) l))) ].
+
+(* scripts with calls nested in the sleep of blocking calls; flat = the calls in the order they return *)
+Definition mk_bev (e : kevent) (nested : list kevent) (r : bool) : kbevent := {| kb_ev := e; kb_nested := nested; kb_raise := r |}.
+Fixpoint bhist_totals (imp : option (Z * kstat)) (hist : list kevent) (l : list kbevent) : list (list Z) :=
+  match l with
+  | [] => []
+  | b :: r =>
+    if kb_blocking b then
+      script_totals imp hist (kb_nested b)
+      ++ (if kb_raise b then [[]] else script_totals imp (rev (kb_nested b) ++ hist) [kb_ev b])
+      ++ bhist_totals imp ((if kb_raise b then [] else [kb_ev b]) ++ rev (kb_nested b) ++ hist) r
+    else script_totals imp hist [kb_ev b] ++ bhist_totals imp (kb_ev b :: hist) r
+  end.
+Fixpoint bconsistent (imp : option (Z * kstat)) (hist : list kevent) (l : list kbevent) : bool :=
+  match l with
+  | [] => true
+  | b :: r =>
+    if kb_blocking b then
+      script_consistent imp hist (if kb_raise b then kb_nested b else kb_nested b ++ [kb_ev b])
+      && bconsistent imp ((if kb_raise b then [] else [kb_ev b]) ++ rev (kb_nested b) ++ hist) r
+    else script_consistent imp hist [kb_ev b] && bconsistent imp (kb_ev b :: hist) r
+  end.
+Definition run_bscript (clk : positive) (nf : nat) (imp : option (Z * kstat)) (l : list kbevent) : jv :=
+  let imp_b := option_map (fun x => (fst x, k_stat (snd x))) imp in
+  let flat := concat (map flatb l) in
+  let ids := first_ids imp flat in
+  JL [ JL (map (fun e => JL [JB (k_stat (ke_k1 e));
+                             JB (if is_pos (ke_iv e) then k_stat (ke_k2 e) else [])]) flat);
+       JL (map (jv_outcome jsres) (brun clk (sys_start clk imp_b) (map to_bevent l)));
+       (if script_wf nf imp flat && bconsistent imp [] l
+        then JL (map (jv_outcome jsres) (spec_brun clk imp [] l)) else jnone);
+       JL (map (fun x => JL (map JZ x)) (bhist_totals imp [] l));
+       jopt (fun x => JB (k_stat (snd x))) imp;
+       jbool (imp_wf nf ids imp && bscript_ok clk nf ids imp [] l) ].
